@@ -271,12 +271,15 @@ def _dict_serialize(inp):
     # Loop over items.
     for key, value in inp.items():
 
+        # Workaround for discretize.TensorMesh (store as emg3d.TensorMesh).
+        # emg3d.TensorMesh is a subclass of discretize.TensorMesh, not the
+        # other way round: the parent class is not in _KNOWN_CLASSES.
+        if (hasattr(value, 'face_areas') and hasattr(value, 'h') and
+                not isinstance(value, meshes.TensorMesh)):
+            value = meshes.TensorMesh(value.h, value.origin)
+
         # Serialize known classes.
         if isinstance(value, tuple(utils._KNOWN_CLASSES.values())):
-
-            # Workaround for discretize.TensorMesh (store as emg3d.TensorMesh)
-            if hasattr(value, 'face_areas'):
-                value = meshes.TensorMesh(value.h, value.origin)
 
             # Serialize.
             value = value.to_dict()
